@@ -6,19 +6,32 @@ All randomness comes from the `random.Random` handed in (run.rng).
 AST (tuples):
   expr: ('undef',) ('num',n) ('var',x) ('arg',i) ('fun',f) ('thenable',f) ('getter',f) ('obj',)
         ('resolve',e) ('reject',e) ('new',f) ('then',p,f,r) ('catch',p,r) ('finally',p,f)
-        ('comb',kind,[e]) ('call',f,a)
-  stmt: ('print',l,e) ('let',x,e) ('expr',e) ('return',e) ('throw',e) ('await',x,e)
+        ('comb',kind,[e]) ('call',f,a) ('next',rk,g,a) with rk in 'next' | 'return' | 'throw'
+  stmt: ('print',l,e) ('let',x,e) ('expr',e) ('return',e) ('throw',e) ('await',x,e) ('yield',x,e) ('yieldstar',x,e)
+        ('forawait',x,git,e,[stmt])   (git: a variable only the model uses, to hold the iterator)
         ('try',[stmt],x,[stmt]) ('hang',)
-  program: {'funs': [{'async': bool, 'body': [stmt]}], 'main': [stmt], 'nvars': int, 'hang': bool, 'features': set}
+  program: {'funs': [{'kind': 'sync'|'async'|'agen', 'body': [stmt]}], 'main': [stmt], 'nvars': int, 'hang': bool, 'features': set}
 """
 
 PRELUDE = (
     'function show(v){ if (v === undefined) return "undefined"; if (typeof v === "number") return String(v); '
     'if (typeof v === "function") return "F"; if (v instanceof Promise) return "P"; '
+    'if (typeof v.next === "function") return "AG"; '
+    'if (Object.prototype.hasOwnProperty.call(v, "done")) return show(v.value) + (v.done ? "!" : ""); '
     'if (Array.isArray(v)) return "[" + v.map(show).join(",") + "]"; '
     'if (v instanceof Error) return v.name + (v.errors ? show(v.errors) : ""); '
     'if (Object.prototype.hasOwnProperty.call(v, "status")) return v.status + ":" + show(v.status === "fulfilled" ? v.value : v.reason); '
     'return v.k; }\n')
+
+FKIND_JS = {'sync': 'function', 'async': 'async function', 'agen': 'async function*'}
+FKIND_COQ = {'sync': 'FSync', 'async': 'FAsync', 'agen': 'FAsyncGen'}
+RK_COQ = {'next': 'RNext', 'return': 'RReturn', 'throw': 'RThrow'}
+
+
+def fkind(f):
+    """function kind; older corpus entries have {'async': bool}"""
+    return f['kind'] if 'kind' in f else ('async' if f.get('async') else 'sync')
+
 
 COMB_JS = {'all': 'all', 'race': 'race', 'allSettled': 'allSettled', 'any': 'any'}
 COMB_COQ = {'all': 'KAll', 'race': 'KRace', 'allSettled': 'KAllSettled', 'any': 'KAny'}
@@ -61,6 +74,8 @@ def e_js(e):
         return 'Promise.%s([%s])' % (COMB_JS[e[1]], ', '.join(e_js(x) for x in e[2]))
     if t == 'call':
         return '(%s)(%s)' % (e_js(e[1]), e_js(e[2]))
+    if t == 'next':
+        return '(%s).%s(%s)' % (e_js(e[2]), e[1], e_js(e[3]))
     raise ValueError(e)
 
 
@@ -78,6 +93,12 @@ def s_js(s, ind='  '):
         return ind + 'throw %s;' % e_js(s[1])
     if t == 'await':
         return ind + 'v%d = await %s;' % (s[1], e_js(s[2]))
+    if t == 'yield':
+        return ind + 'v%d = yield %s;' % (s[1], e_js(s[2]))
+    if t == 'yieldstar':
+        return ind + 'v%d = yield* %s;' % (s[1], e_js(s[2]))
+    if t == 'forawait':
+        return (ind + 'for await (v%d of %s) {\n' % (s[1], e_js(s[3])) + '\n'.join(s_js(x, ind + '  ') for x in s[4]) + '\n' + ind + '}')
     if t == 'try':
         return (ind + 'try {\n' + '\n'.join(s_js(x, ind + '  ') for x in s[1]) + '\n' + ind + '} catch (e) {\n' +
                 ind + '  v%d = e;\n' % s[2] + '\n'.join(s_js(x, ind + '  ') for x in s[3]) + '\n' + ind + '}')
@@ -92,12 +113,20 @@ def to_js(p, cuts=False):
     if p['nvars']:
         out.append('var ' + ', '.join('v%d' % i for i in range(p['nvars'])) + ';')
     for i, f in enumerate(p['funs']):
-        out.append('%sfunction f%d(a, b) {\n%s\n}' % ('async ' if f['async'] else '', i, '\n'.join(s_js(x) for x in f['body'])))
+        out.append('%s f%d(a, b) {\n%s\n}' % (FKIND_JS[fkind(f)], i, '\n'.join(s_js(x) for x in f['body'])))
     head = '\n'.join(out)
     main = [s_js(x, '') for x in p['main']]
     if cuts:
         return head + '\n//#CUT\n' + '\n//#CUT\n'.join(main) + '\n'
     return head + '\n' + '\n'.join(main) + '\n'
+
+
+def to_js_parts(p):
+    """(declarations, main) with to_js(p) == declarations + main"""
+    js = to_js(p)
+    main = '\n'.join(s_js(x, '') for x in p['main']) + '\n'
+    assert js.endswith(main)
+    return js[:len(js) - len(main)], main
 
 
 def e_coq(e):
@@ -134,6 +163,8 @@ def e_coq(e):
         return '(EComb %s [%s])' % (COMB_COQ[e[1]], '; '.join(e_coq(x) for x in e[2]))
     if t == 'call':
         return '(ECall %s %s)' % (e_coq(e[1]), e_coq(e[2]))
+    if t == 'next':
+        return '(ENext %s %s %s)' % (RK_COQ[e[1]], e_coq(e[2]), e_coq(e[3]))
     raise ValueError(e)
 
 
@@ -151,6 +182,12 @@ def s_coq(s):
         return '(SThrow %s)' % e_coq(s[1])
     if t == 'await':
         return '(SAwait %d %s)' % (s[1], e_coq(s[2]))
+    if t == 'yield':
+        return '(SYield %d %s)' % (s[1], e_coq(s[2]))
+    if t == 'yieldstar':
+        return '(SYieldStar %d %s)' % (s[1], e_coq(s[2]))
+    if t == 'forawait':
+        return '(SForAwait %d %d %s [%s])' % (s[1], s[2], e_coq(s[3]), '; '.join(s_coq(x) for x in s[4]))
     if t == 'try':
         return '(STry [%s] %d [%s])' % ('; '.join(s_coq(x) for x in s[1]), s[2], '; '.join(s_coq(x) for x in s[3]))
     if t == 'hang':
@@ -159,7 +196,7 @@ def s_coq(s):
 
 
 def to_coq(p):
-    funs = '; '.join('mkF %s [%s]' % ('true' if f['async'] else 'false', '; '.join(s_coq(x) for x in f['body'])) for f in p['funs'])
+    funs = '; '.join('mkF %s [%s]' % (FKIND_COQ[fkind(f)], '; '.join(s_coq(x) for x in f['body'])) for f in p['funs'])
     return '(mkProg [%s] [%s])' % (funs, '; '.join(s_coq(x) for x in p['main']))
 
 
@@ -181,6 +218,10 @@ class Gen:
         self.proms = []      # variables that hold a native promise once assigned
         self.resolvers = []  # variables that hold a resolving function once the executor ran
         self.asyncs = []     # async function indices callable from anywhere
+        self.agens = []      # async generator function indices
+        self.gens = []       # variables that hold an async generator object once assigned
+        self.gen_fn = {}     # generator variable -> index of its async generator function
+        self.star_fns = set()   # async generator functions whose body delegates with yield*
         self.feat = set()
         self.depth = 0
 
@@ -203,7 +244,8 @@ class Gen:
         self.depth += 1
         body = mk()
         self.depth -= 1
-        self.funs[idx] = {'async': is_async, 'body': body}
+        kind = is_async if isinstance(is_async, str) else ('async' if is_async else 'sync')
+        self.funs[idx] = {'kind': kind, 'body': body}
         return idx
 
     def pick(self, weighted):
@@ -392,6 +434,132 @@ class Gen:
             self.asyncs.append(idx)
         return idx
 
+    # -- async generators
+    def agen_fn(self):
+        """async function* fN(a, b) { print; yields / awaits / try-catch; return / throw / fall off }"""
+        def yval():
+            v = self.val(True)
+            if v[0] in ('thenable', 'getter'):
+                self.feat.add('agen-yield-thenable')
+            elif v[0] == 'reject':
+                self.feat.add('agen-yield-rejected')
+            elif v[0] in ('resolve', 'var', 'call', 'next'):
+                self.feat.add('agen-yield-promise')
+            return v
+
+        has_star = [False]
+
+        def mk():
+            self.feat.add('agen')
+            body = [('print', self.label(), ('arg', 0))]
+            lead_star = bool(self.agens) and self.r.random() < 0.35      # delegate first: requests that queue up are forwarded
+            for n in range(self.r.choice([1, 2, 2, 3, 4])):
+                if not self.room():
+                    break
+                k = self.pick([(5, 'yield'), (3, 'xyield'), (2, 'await'), (1.5, 'try'), (1, 'print'), (2 if self.agens else 0, 'ystar')])
+                if n == 0 and lead_star:
+                    k = 'ystar'
+                if k == 'ystar':
+                    # delegate to an object of an async generator function defined earlier (no recursion)
+                    self.feat.add('agen-yield*')
+                    has_star[0] = True
+                    x = self.fresh()
+                    src = ('call', ('fun', self.r.choice(self.agens)), self.val(True, deep=False))
+                    if self.edge and self.r.random() < 0.3:
+                        src = self.r.choice([('num', 3), ('resolve', ('num', 1)), ('undef',)])      # not iterable
+                    body += [('yieldstar', x, src), ('print', self.label(), ('var', x))]
+                elif k == 'yield':
+                    body.append(('yield', self.fresh(), yval()))
+                elif k == 'xyield':
+                    x = self.fresh()
+                    body += [('yield', x, yval()), ('print', self.label(), ('var', x))]
+                elif k == 'await':
+                    self.feat.add('agen-await')
+                    x = self.fresh()
+                    body += [('await', x, self.val(True)), ('print', self.label(), ('var', x))]
+                elif k == 'try':
+                    self.feat.add('agen-try')
+                    x, y = self.fresh(), self.fresh()
+                    inner = [('yield', x, yval()), ('print', self.label(), ('var', x))]
+                    if self.r.random() < 0.4:
+                        inner.append(('yield', self.fresh(), yval()))
+                    body.append(('try', inner, y, [('print', self.label(), ('var', y))]))
+                else:
+                    body.append(('print', self.label(), ('undef',)))
+            e = self.pick([(2.5, 'ret'), (3, 'retp'), (1, 'throw'), (2.5, 'none')])
+            if e == 'ret':
+                body.append(('return', ('num', self.r.randrange(100))))
+            elif e == 'retp':
+                self.feat.add('agen-return-promise')
+                body.append(('return', self.val(True)))
+            elif e == 'throw':
+                body.append(('throw', self.val(True, deep=False)))
+            return body
+        idx = self.new_fun('agen', mk)
+        self.agens.append(idx)
+        if has_star[0]:
+            self.star_fns.add(idx)
+        return idx
+
+    def gen_request(self, infun=False):
+        """(vG).next(v) / .return(v) / .throw(v): a promise expression"""
+        g = self.r.choice(self.gens)
+        star = self.gen_fn.get(g) in self.star_fns
+        # a return / throw that arrives while the generator delegates is forwarded to the inner generator
+        rk = self.pick([(7, 'next'), (4 if star else 1.5, 'return'), (2 if star else 1, 'throw')])
+        self.feat.add('agen-' + rk)
+        if star and rk != 'next':
+            self.feat.add('agen-yield*-' + rk)
+        if rk == 'return':
+            v = self.val(infun)           # return(promise / thenable) is awaited
+        else:
+            v = self.val(infun, deep=False)
+        return ('next', rk, ('var', g), v)
+
+    def agen_consumer(self):
+        """async function that awaits successive next() results of a global generator variable (what for-await does)"""
+        g = self.r.choice(self.gens)
+
+        def mk():
+            self.feat.add('agen-consumer')
+            body = [('print', self.label(), ('arg', 0))]
+            for _ in range(self.r.choice([1, 2, 3])):
+                if not self.room():
+                    break
+                x = self.fresh()
+                body += [('await', x, ('next', 'next', ('var', g), ('arg', 0))), ('print', self.label(), ('var', x))]
+            return body
+        return self.new_fun(True, mk)
+
+    def forawait_consumer(self):
+        """async function f(a, b) { [try {] for await (vX of <generator>) { print; [await]; [throw] } print [} catch ...] }"""
+        if self.gens and self.r.random() < 0.5:
+            src = ('var', self.r.choice(self.gens))        # shared with other consumers / manual requests
+        else:
+            src = ('call', ('fun', self.r.choice(self.agens)), ('arg', 0))
+        if self.edge and self.r.random() < 0.3:
+            src = self.r.choice([('num', 3), ('resolve', ('num', 1)), ('undef',), ('thenable', self.thenable_fn())])
+
+        def mk():
+            self.feat.add('agen-for-await')
+            x, git = self.fresh(), self.fresh()
+            body = [('print', self.label(), ('var', x))]
+            if self.r.random() < 0.4:
+                y = self.fresh()
+                body += [('await', y, self.val(True)), ('print', self.label(), ('var', y))]
+            if self.r.random() < 0.4:
+                self.feat.add('agen-for-await-throw')
+                body.append(('throw', self.val(True, deep=False)))
+            loop = [('forawait', x, git, src, body), ('print', self.label(), ('undef',))]
+            out = [('print', self.label(), ('arg', 0))]
+            if self.r.random() < 0.5:
+                y = self.fresh()
+                out.append(('try', loop, y, [('print', self.label(), ('var', y))]))
+            else:
+                out += loop
+            return out
+        return self.new_fun(True, mk)
+
     # -- promise expressions
     def prom_expr(self, infun=False):
         opts = [(3, 'resolve'), (1.5, 'reject'), (2, 'new')]
@@ -399,9 +567,13 @@ class Gen:
             opts.append((4, 'var'))
         if self.asyncs:
             opts.append((2, 'acall'))
+        if self.gens:
+            opts.append((3, 'gnext'))
         if self.depth < 2 and self.room():
             opts.append((1.5, 'comb'))
         k = self.pick(opts)
+        if k == 'gnext':
+            return self.gen_request(infun)
         if k == 'resolve':
             return ('resolve', self.val(infun))
         if k == 'reject':
@@ -462,7 +634,10 @@ class Gen:
         return e
 
     # -- main
-    def main_stmt(self):
+    def main_stmt_forced(self, kind):
+        return self.main_stmt(kind)
+
+    def main_stmt(self, force=None):
         opts = [(4, 'chain'), (3, 'letp'), (1, 'print')]
         if self.asyncs:
             opts.append((2.5, 'acall'))
@@ -473,7 +648,61 @@ class Gen:
             opts.append((1.5, 'race-chains'))
         if self.edge:
             opts += [(1, 'illtyped'), (0.7, 'self-resolve'), (0.7, 'try-throw')]
-        k = self.pick(opts)
+        if self.room():
+            opts.append((1.2, 'ticks'))
+        if self.agens:
+            opts.append((9 if not self.gens else 1, 'agen-new'))
+        if self.gens:
+            opts += [(4, 'agen-req'), (2.5, 'agen-burst'), (1.5, 'agen-consumer')]
+        if any(self.gen_fn.get(g) in self.star_fns for g in self.gens):
+            opts.append((3, 'agen-star-return'))
+        if self.agens and self.room():
+            opts.append((2.5, 'agen-forawait'))
+        k = force or self.pick(opts)
+        if k == 'ticks':
+            # a plain tick chain: one print per microtask turn, so that the tick count of everything else is visible
+            self.feat.add('tick-chain')
+            e = ('resolve', ('undef',))
+            for _ in range(self.r.choice([3, 4, 5, 6])):
+                if not self.room():
+                    break
+                e = ('then', e, ('fun', self.new_fun(False, lambda: [('print', self.label(), ('undef',))])), ('undef',))
+            return [('expr', e)]
+        if k == 'agen-new':
+            x = self.fresh()
+            fn = self.r.choice(sorted(self.star_fns)) if self.star_fns and self.r.random() < 0.5 else self.r.choice(self.agens)
+            self.gens.append(x)
+            self.gen_fn[x] = fn
+            return [('let', x, ('call', ('fun', fn), self.val(deep=False)))]
+        if k == 'agen-star-return':
+            # next() then return()/throw() on a delegating generator: the second request is forwarded to the inner one
+            g = self.r.choice([g for g in self.gens if self.gen_fn.get(g) in self.star_fns])
+            rk = self.r.choice(['return', 'return', 'throw'])
+            self.feat.add('agen-' + rk)
+            self.feat.add('agen-yield*-' + rk)
+            v = self.val() if rk == 'return' else self.val(deep=False)
+            out = [('expr', ('then', ('next', 'next', ('var', g), self.val(deep=False)), self.handler(False), self.handler(False))),
+                   ('expr', ('then', ('next', rk, ('var', g), v), self.handler(False), self.handler(False)))]
+            if self.r.random() < 0.4:
+                out.append(('expr', ('then', ('next', 'next', ('var', g), ('undef',)), self.handler(False), self.handler(False))))
+            return out
+        if k == 'agen-req':
+            return [('expr', self.chain(self.gen_request(), maxlen=2))]
+        if k == 'agen-burst':
+            # several requests while the generator is still busy: they queue up
+            self.feat.add('agen-burst')
+            return [('expr', ('then', self.gen_request(), self.handler(False), self.handler(False)))
+                    for _ in range(self.r.choice([2, 3, 4])) if self.room()]
+        if k == 'agen-forawait':
+            f = self.forawait_consumer()
+            x = self.fresh()
+            self.proms.append(x)
+            return [('let', x, ('call', ('fun', f), ('num', self.r.randrange(100))))]
+        if k == 'agen-consumer':
+            f = self.agen_consumer()
+            x = self.fresh()
+            self.proms.append(x)
+            return [('let', x, ('call', ('fun', f), ('num', self.r.randrange(100))))]
         if k == 'chain':
             return [('expr', self.chain(self.prom_expr()))]
         if k == 'letp':
@@ -505,12 +734,14 @@ class Gen:
             return [('expr', self.chain(('var', a), maxlen=2)), ('expr', self.chain(('var', b), maxlen=2))]
         if k == 'illtyped':
             self.feat.add('ill-typed')
-            kk = self.r.choice(['then-on-num', 'call-nonfun', 'catch-on-thenable', 'then-on-thenable'])
+            kk = self.r.choice(['then-on-num', 'call-nonfun', 'catch-on-thenable', 'then-on-thenable', 'next-on-nongen'])
             y = self.fresh()
             if kk == 'then-on-num':
                 bad = ('then', ('num', 1), ('fun', self.callback()), ('undef',))
             elif kk == 'call-nonfun':
                 bad = ('call', ('num', 2), ('undef',))
+            elif kk == 'next-on-nongen':
+                bad = ('next', 'next', self.r.choice([('num', 4), ('resolve', ('num', 1)), ('obj',)]), ('num', 1))
             elif kk == 'catch-on-thenable':
                 bad = ('catch', ('thenable', self.thenable_fn()), ('fun', self.callback()))
             else:
@@ -531,11 +762,18 @@ class Gen:
         # a few async functions first so that everything can call them
         for _ in range(self.r.choice([0, 1, 1, 2])):
             self.async_fn()
+        for _ in range(self.r.choice([0, 0, 0, 1, 2, 2, 3])):
+            self.agen_fn()
         main = []
         for _ in range(self.size):
             if not self.room():
                 break
             main += self.main_stmt()
+        if self.agens and not self.gens and self.room():
+            main += self.main_stmt_forced('agen-new')
+            for _ in range(self.r.choice([1, 2, 3])):
+                if self.room():
+                    main += self.main_stmt_forced(self.r.choice(['agen-req', 'agen-burst']))
         if self.hang and not self.hang_placed:
             main.append(('expr', ('then', ('resolve', ('num', 1)), ('fun', self.callback(True)), ('undef',))))
             # something queued behind it that must be dropped
